@@ -49,10 +49,41 @@ package dialer
 //@   trusted
 //@ func (*Dialer).notifyAliveTransition
 //@   trusted
+// C15 (min_avg10 ranks by the average of the last ten samples): the sample window is a ring of at most N
+// samples with a running sum. One step: while the window is not full the sample is appended; once full, the
+// OLDEST sample (at head) is replaced, its value leaves the sum, and head advances cyclically. Nothing else in
+// the window changes. (lnOK is the window's shape invariant: established by NewLatenciesN, preserved here.)
+//@ macro lnOK(ln *LatenciesN) = ln.N > 0 && 0 <= ln.head && ln.head < ln.N && len(ln.latencies) <= ln.N && (len(ln.latencies) < ln.N ==> ln.head == 0)
+//@ macro lnSmall(x int) = -1152921504606846976 <= x && x <= 1152921504606846976
+//@ func NewLatenciesN
+//@   requires 0 <= n && n <= 1048576
+//@   ensures result != nil && fresh(result) && result.N == n && result.head == 0 && result.SumNLatencies == 0 && len(result.latencies) == 0
+//@   ensures n > 0 ==> lnOK(result)
 //@ func (*LatenciesN).AppendLatency
-//@   trusted
+//@   anchorsonly
+//@   nonilcheck
+//@   modifies ln.SumNLatencies, ln.head, ln.latencies, elems(ln.latencies)
+//@   ensures old(lnOK(ln)) ==> lnOK(ln) && ln.N == old(ln.N)
+//@   ensures old(lnOK(ln)) && old(len(ln.latencies)) < ln.N ==> len(ln.latencies) == old(len(ln.latencies)) + 1 && ln.latencies[old(len(ln.latencies))] == l && ln.head == old(ln.head)
+//@   ensures old(lnOK(ln)) && old(len(ln.latencies)) < ln.N ==> (forall k int {ln.latencies[k]} :: 0 <= k && k < old(len(ln.latencies)) ==> ln.latencies[k] == old(ln.latencies[k]))
+//@   ensures old(lnOK(ln)) && old(len(ln.latencies)) < ln.N && lnSmall(old(ln.SumNLatencies)) && lnSmall(l) ==> ln.SumNLatencies == old(ln.SumNLatencies) + l
+//@   ensures old(lnOK(ln)) && old(len(ln.latencies)) >= ln.N ==> len(ln.latencies) == old(len(ln.latencies)) && ln.latencies[old(ln.head)] == l && ln.head == (old(ln.head) + 1) % ln.N
+//@   ensures old(lnOK(ln)) && old(len(ln.latencies)) >= ln.N ==> (forall k int {ln.latencies[k]} :: 0 <= k && k < len(ln.latencies) && k != old(ln.head) ==> ln.latencies[k] == old(ln.latencies[k]))
+//@   ensures old(lnOK(ln)) && old(len(ln.latencies)) >= ln.N && lnSmall(old(ln.SumNLatencies)) && lnSmall(l) && lnSmall(old(ln.latencies[ln.head])) ==> ln.SumNLatencies == old(ln.SumNLatencies) - old(ln.latencies[ln.head]) + l
+// the average is the running sum over the number of samples held (none: no answer); the last sample is the
+// one written most recently - the slot before head once the ring is full
 //@ func (*LatenciesN).AvgLatency
-//@   trusted
+//@   anchorsonly
+//@   nonilcheck
+//@   ensures result1 <==> len(ln.latencies) > 0
+//@   ensures len(ln.latencies) > 0 ==> result0 == ln.SumNLatencies / len(ln.latencies)
+//@   ensures len(ln.latencies) == 0 ==> result0 == 0
+//@ func (*LatenciesN).LastLatency
+//@   anchorsonly
+//@   nonilcheck
+//@   ensures result1 <==> len(ln.latencies) > 0
+//@   ensures len(ln.latencies) > 0 && len(ln.latencies) < ln.N ==> result0 == ln.latencies[len(ln.latencies) - 1]
+//@   ensures lnOK(ln) && len(ln.latencies) == ln.N ==> result0 == ln.latencies[(ln.head + ln.N - 1) % ln.N]
 
 // thr: the documented thresholds (1 failed TCP probe, 3 failed UDP probes, 10 TCP / 50 UDP traffic failures)
 //@ macro thr(typ *NetworkType, isTraffic bool) = typ.L4Proto == consts.L4ProtoStr_UDP ? (isTraffic ? 50 : 3) : ((typ.L4Proto == consts.L4ProtoStr_TCP && isTraffic) ? 10 : 1)
@@ -242,9 +273,25 @@ package dialer
 //@   pure
 //@   ensures t == nil || t.L4Proto != consts.L4ProtoStr_UDP ==> result == UdpHealthDomainUnset
 //@   ensures t != nil && t.L4Proto == consts.L4ProtoStr_UDP ==> result == (t.UdpHealthDomain != UdpHealthDomainUnset ? t.UdpHealthDomain : UdpHealthDomainData)
+//@ func (*Dialer).mustGetCollection
+//@   pure
+//@   anchorsonly
+//@   ensures result == d.collections[typ.Index()]
 //@ func (*Dialer).MustGetAlive
 //@   pure
-//@   trusted
+//@   anchorsonly
+//@   ensures result == d.collections[typ.Index()].Alive.Load()
+// a network type has DNS semantics when, for UDP, its effective health domain is the DNS one and, for TCP, its
+// IsDns flag says so
+//@ func (*NetworkType).IsDnsSemantic
+//@   pure
+//@   ensures t == nil ==> !result
+//@   ensures t != nil && t.L4Proto == consts.L4ProtoStr_UDP ==> (result <==> t.EffectiveUdpHealthDomain() == UdpHealthDomainDns)
+//@   ensures t != nil && t.L4Proto != consts.L4ProtoStr_UDP ==> result == t.IsDns
+// a new per-network-type record starts alive, with an empty ten-sample window
+//@ func newCollection
+//@   dyncalls noeffect
+//@   ensures result != nil && fresh(result) && result.Alive.Load() && result.Latencies10 != nil && lnOK(result.Latencies10) && result.Latencies10.N == 10 && len(result.Latencies10.latencies) == 0 && result.MovingAverage == 0
 
 //@ func (*Dialer).Property
 //@   pure
